@@ -92,8 +92,7 @@ Record out := mkOut {
   o_sent : list packet;                (* queries, in emission order (per interface+family) *)
   o_events : list (chan * event);      (* channel events, in emission order *)
   o_wake : option N;                   (* earliest timer at the next gate *)
-  o_exited : bool;
-  o_hazard : bool }.                   (* model-only: see `hazard` *)
+  o_exited : bool }.
 
 (* ---- small helpers ---- *)
 Fixpoint lookup (k : okey) (l : list (okey * owner)) : option owner :=
@@ -216,28 +215,26 @@ Definition timeout_events (now : N) (owners : list (okey * owner)) : list (chan 
                      then [(ow_ch (snd e), ETimeout (snd (fst e))); (ow_ch (snd e), EStopped (snd (fst e)))]
                      else []) owners.
 
-(* Model-only flag.  The deadline block removes the resolver but not its pending
-   ResolveHostname retransmission.  `hazard` says: a search whose deadline is noticed in this
-   iteration still has a retransmission queued (which is then due in the same iteration, is
-   re-run after SearchStopped was sent, finds no resolver and is queued again without a
-   bound).  It can only happen when this iteration runs later than that retransmission's
-   time.  Known finding C13-timeout-late-rerun; the theorems of C13/C19 are about the
-   histories in which the flag never rises. *)
-Definition hazard (now : N) (owners : list (okey * owner)) (retrans : list rerun) : bool :=
-  existsb (fun e => expired now e && existsb (fun r => okey_eqb (rkey r) (fst e)) retrans) owners.
-
 (* ---- re-run of due retransmissions ---- *)
 Definition due (now : N) (r : rerun) : bool := r_time r <=? now.   (* now >= next_time *)
 
 Definition rerun_one (now : N) (owners : list (okey * owner)) (r : rerun) : list rerun :=
   requeue now owners (r_host r) (r_name r) (r_delay r) (r_ch r).
 
+(* exec_command_resolve_hostname with repeating = true returns at once - no SearchStarted, no
+   query, nothing queued - when no resolver exists for the lower-cased name ("A retransmission
+   whose search was stopped or timed out meanwhile must not run").  The deadline block of run
+   removes a resolver but not its queued retransmission; that retransmission is dropped here.
+   exec_command_browse has no such test. *)
+Definition rerun_live (owners : list (okey * owner)) (r : rerun) : bool :=
+  negb (r_host r) || match lookup (rkey r) owners with Some _ => true | None => false end.
+
 (* The Rust loop removes each due element and executes it; the execution pushes the next
    retransmission at the end of the vector.  A pushed element has next_time = now +
-   delay*1000 with delay >= 1 (Proofs: inv_delay), so the same pass never re-runs it: the
+   delay*1000 with delay >= 1 (Proofs: inv_ret), so the same pass never re-runs it: the
    result is  (elements not due, in order) ++ (new elements, in execution order). *)
 Definition rerun_phase (now : N) (s : state) : result :=
-  let d := filter (due now) (st_retrans s) in
+  let d := filter (rerun_live (st_owners s)) (filter (due now) (st_retrans s)) in
   let keep := filter (fun r => negb (due now r)) (st_retrans s) in
   let new := flat_map (rerun_one now (st_owners s)) d in
   (set_sched s (map r_time new ++ st_timers s) (keep ++ new) (st_owners s),
@@ -277,7 +274,6 @@ Definition timeout_phase (now : N) (s : state) : state :=
 Definition iterate (s : state) (it : iter) : state * out :=
   let now := i_now it in
   let ev_t := timeout_events now (st_owners s) in
-  let hz := hazard now (st_owners s) (st_retrans s) in
   let s1 := timeout_phase now s in
   (* commands *)
   let '(s2, p_c, ev_c) := run_cmds now (i_cmds it) s1 in
@@ -285,9 +281,9 @@ Definition iterate (s : state) (it : iter) : state * out :=
     let '(s3, p_r, ev_r) := rerun_phase now s2 in
     let s4 := ip_phase now s3 in
     (s4, mkOut now (p_c ++ p_r) (ev_t ++ ev_c ++ ev_r ++ closed_events s (i_cmds it) s4)
-               (min_list (st_timers s4)) false hz)
+               (min_list (st_timers s4)) false)
   else
-    (s2, mkOut now p_c (ev_t ++ ev_c ++ closed_events s (i_cmds it) s2) None true hz).
+    (s2, mkOut now p_c (ev_t ++ ev_c ++ closed_events s (i_cmds it) s2) None true).
 
 (* a history: the iterations that take place; after Exit the thread is gone *)
 Fixpoint run (s : state) (h : list iter) : list out :=
@@ -310,13 +306,10 @@ Definition init (t0 : N) : state :=
   else mkState t0 [] [] [] 0 ival true.
 
 Definition init_out (t0 : N) : out :=
-  mkOut t0 [] [] (min_list (st_timers (init t0))) false false.
+  mkOut t0 [] [] (min_list (st_timers (init t0))) false.
 
 (* the whole observable trace: first arrival at the gate, then one record per iteration *)
 Definition model_run (t0 : N) (h : list iter) : list out := init_out t0 :: run (init t0) h.
-
-Definition hazard_free (t0 : N) (h : list iter) : bool :=
-  forallb (fun o => negb (o_hazard o)) (run (init t0) h).
 
 (* pending time-driven work of a state, with its due times (DESIGN appendix C, restricted to
    the slice): retransmissions, resolver deadlines, the interface check *)
